@@ -169,3 +169,7 @@ def run(chk):
         hit = fresh_battery(chk.seed)
         chk.extra["native_freshness_test"] = "failed" if hit else "passed"
     chk.samples = [o.j() for o in chk.obs if "returned pointer" in o.name][:8]
+
+
+def safety_net(chk):
+    return fresh_battery(chk.seed)
